@@ -478,7 +478,8 @@ func (p *parser) decl(cf *ContractFile) {
 				}
 				if p.acceptId("nothing") {
 					// empty
-				} else if p.accept("*") {
+				} else if p.isOp("*") && !(p.toks[p.p+1].kind == "id" && !clauseKeywords[p.toks[p.p+1].s] && !declKeywords[p.toks[p.p+1].s]) && !(p.toks[p.p+1].kind == "op" && p.toks[p.p+1].s == "(") {
+					p.next()
 					fc.ModAny = true
 				} else {
 					for {
